@@ -171,10 +171,12 @@ def list_binop(op, a, b, t=None):
                     t2 = tuple
                     b2 = list(b[i])
                 if t2 is None:
+                    # As the one sequence branches below, a nested
+                    # row keeps its own type (e.g. ChannelList).
                     if isinstance(a[i], t_seq):
-                        t2 = list
+                        t2 = type(a[i])
                     elif isinstance(b[i], t_seq):
-                        t2 = list
+                        t2 = type(b[i])
                 a2 = a2 or a[i]
                 b2 = b2 or b[i]
                 t2 = t2 or type(...)  # if neither is t_seq type doesn't matter but can't be None.
